@@ -254,12 +254,15 @@ class MacroProgram(ElementProgram):
         # Include macro
         use_macro = ns.get((METAL, 'use-macro'))
         extend_macro = ns.get((METAL, 'extend-macro'))
-        if use_macro or extend_macro:
+        # (an empty expression is an expression, too: it is reported
+        # like the empty expression of any other statement)
+        uses_macro = use_macro is not None or extend_macro is not None
+        if uses_macro:
             omit = True
             slots = []
             self._use_macro.append(slots)
 
-            if use_macro:
+            if use_macro is not None:
                 inner = nodes.UseExternalMacro(
                     nodes.Value(use_macro), slots, False
                 )
@@ -608,7 +611,7 @@ class MacroProgram(ElementProgram):
                     clause
                 )
 
-            index = -(1 + int(bool(use_macro or extend_macro)))
+            index = -(1 + int(uses_macro))
 
             try:
                 slots = self._use_macro[index]
@@ -716,7 +719,7 @@ class MacroProgram(ElementProgram):
         self._interpolation.pop()
         self._translated.pop()
 
-        if use_macro or extend_macro:
+        if uses_macro:
             self._use_macro.pop()
 
         # The fallback is part of the named translation block (if any)
